@@ -37,6 +37,7 @@ pub broadcast axiom fn axiom_string_cmp_is_lex(a: String, b: String)
 // TRUSTED[ordering-eq]: `==` on core::cmp::Ordering (derived PartialEq of a field-less enum) is structural equality.
 pub broadcast axiom fn axiom_ordering_obeys_eq()
     ensures #[trigger] <Ordering as PartialEqSpec>::obeys_eq_spec();
+// TRUSTED[ordering-eq-spec]: its eq_spec is that structural equality.
 pub broadcast axiom fn axiom_ordering_eq(a: Ordering, b: Ordering)
     ensures #[trigger] a.eq_spec(&b) == (a == b);
 
